@@ -398,6 +398,8 @@ impl WaitForGraph {
             .duration_since(std::time::UNIX_EPOCH)
             .unwrap_or_default()
             .as_millis() as u64;
+        #[cfg(neumann_verif)]
+        let now = crate::distributed_tx::verif_clock::get().unwrap_or(now);
 
         {
             let mut edges = self.edges.write();
@@ -610,6 +612,8 @@ impl WaitForGraph {
             .duration_since(std::time::UNIX_EPOCH)
             .unwrap_or_default()
             .as_millis() as u64;
+        #[cfg(neumann_verif)]
+        let now = crate::distributed_tx::verif_clock::get().unwrap_or(now);
 
         let stale_txs: Vec<u64> = {
             let wait_started = self.wait_started.read();
@@ -763,6 +767,8 @@ impl DeadlockDetector {
             .duration_since(std::time::UNIX_EPOCH)
             .unwrap_or_default()
             .as_millis() as u64;
+        #[cfg(neumann_verif)]
+        let now = crate::distributed_tx::verif_clock::get().unwrap_or(now);
 
         // Cascading resolution: deduplicate victims across overlapping cycles
         let mut deadlocks = Vec::new();
